@@ -1,50 +1,98 @@
 (* C09 — Result values conform to the result schema.
    Only statements, each closed by [exact], each followed by Print Assumptions.
-   [type_of]/[nullable] are the type and nullability the engine reports for an expression of the modelled fragment
-   (columns, literals, - + * DIV %, = <, IS NULL, COALESCE, IF, CONCAT); [eval] its value on a row. *)
+   [type_of]/[nullable] are the type and nullability the engine reports for an expression (columns, literals, unary minus,
+   + - * DIV %, comparisons, AND/OR/NOT, IS NULL, IN, BETWEEN, CASE, NULLIF, IFNULL, COALESCE, IF, GREATEST/LEAST, CAST,
+   CONCAT/UPPER/SUBSTRING/LENGTH); [eval] its value on a row; [well_typed] the guard that excludes the typing rules of the
+   code that are refuted below; [schema_of false] / [schema_of true] the result schema of a relational statement under
+   the rules of the code / the rules under which the property holds. *)
 From Coq Require Import List ZArith Bool.
 Import ListNotations.
-From GMS Require Import Expr.C09Typing Expr.C09TypingProofs.
+From GMS Require Import Expr.C09Typing Expr.C09TypingProofs Rel.C09Rel Rel.C09Witness.
+Open Scope Z_scope.
 
 (* every value an expression returns is a valid value of the type reported for it *)
 Theorem C09_eval_has_type : forall s r e x,
-  conforms s r = true -> well_typed s e = true -> eval r e = Ok x -> has_type (type_of s e) x = true.
+  conforms s r = true -> well_typed s e = true -> eval s r e = Ok x -> has_type (type_of s e) x = true.
 Proof. exact eval_has_type. Qed.
 Print Assumptions C09_eval_has_type.
 
-(* an expression reported NOT NULL never evaluates to NULL *)
+(* an expression reported NOT NULL never evaluates to NULL — for EVERY expression of the language, no guard *)
 Theorem C09_not_null_sound : forall s r e,
-  conforms s r = true -> well_typed s e = true -> nullable s e = false -> eval r e <> Ok VNull.
+  conforms s r = true -> nullable s e = false -> eval s r e <> Ok VNull.
 Proof. exact not_null_sound. Qed.
 Print Assumptions C09_not_null_sound.
 
 (* projections: every produced row conforms to the reported result schema (type and NOT NULL, column by column) *)
 Theorem C09_project_conforms : forall s r, conforms s r = true -> forall es out,
-  forallb (well_typed s) es = true -> eval_all r es = Some out -> conforms (project_schema s es) out = true.
+  forallb (well_typed s) es = true -> eval_all s r es = Some out -> conforms (project_schema s es) out = true.
 Proof. exact project_conforms. Qed.
 Print Assumptions C09_project_conforms.
 
-(* outer join: matched rows and NULL-padded unmatched rows conform (the padded side is reported nullable) *)
-Theorem C09_left_join_conforms : forall l r rl rr, conforms l rl = true -> conforms r rr = true ->
-  conforms (left_join_schema l r) (rl ++ rr) = true /\ conforms (left_join_schema l r) (pad rl (length r)) = true.
-Proof. exact left_join_conforms. Qed.
-Print Assumptions C09_left_join_conforms.
+(* generalizeNumberTypes: the generalised type of two integer kinds (any widths, signed or unsigned) admits every
+   value of both operands; likewise boolean with an integer kind *)
+Theorem C09_generalize_integers_sound : forall ka kb,
+  holds (TInt ka) (generalize (TInt ka) (TInt kb)) = true /\ holds (TInt kb) (generalize (TInt ka) (TInt kb)) = true.
+Proof. exact generalize_integers_sound. Qed.
+Print Assumptions C09_generalize_integers_sound.
+Theorem C09_holds_sound : forall a t x, holds a t = true -> has_type a x = true -> has_type t (conv_to t x) = true.
+Proof. exact holds_sound. Qed.
+Print Assumptions C09_holds_sound.
 
-(* set operations: rows of either input conform to the unified schema *)
-Theorem C09_union_conforms : forall a b r, same_types a b = true ->
-  (conforms a r = true -> conforms (union_schema a b) r = true) /\
-  (conforms b r = true -> conforms (union_schema a b) r = true).
-Proof. exact union_conforms. Qed.
-Print Assumptions C09_union_conforms.
+(* the typing rules of the code that the guard excludes are refuted by concrete rows *)
+Theorem C09_decimal_times_mod_refuted : exists s r e, violates s r e.
+Proof. exact (ex_intro _ _ (ex_intro _ _ (ex_intro _ _ times_mod_refuted))). Qed.
+Print Assumptions C09_decimal_times_mod_refuted.
+Theorem C09_mod_literal_digits_refuted : exists s r e, violates s r e.
+Proof. exact (ex_intro _ _ (ex_intro _ _ (ex_intro _ _ mod_digits_refuted))). Qed.
+Print Assumptions C09_mod_literal_digits_refuted.
+Theorem C09_decimal_plus_integer_refuted : exists s r e, violates s r e.
+Proof. exact (ex_intro _ _ (ex_intro _ _ (ex_intro _ _ decimal_plus_int_refuted))). Qed.
+Print Assumptions C09_decimal_plus_integer_refuted.
+Theorem C09_unary_minus_unsigned_refuted : exists s r e, violates s r e.
+Proof. exact (ex_intro _ _ (ex_intro _ _ (ex_intro _ _ neg_unsigned_refuted))). Qed.
+Print Assumptions C09_unary_minus_unsigned_refuted.
+Theorem C09_intdiv_mixed_sign_refuted : exists s r e, violates s r e.
+Proof. exact (ex_intro _ _ (ex_intro _ _ (ex_intro _ _ intdiv_mixed_refuted))). Qed.
+Print Assumptions C09_intdiv_mixed_sign_refuted.
+Theorem C09_generalize_decimal_refuted : exists s r e, violates s r e.
+Proof. exact (ex_intro _ _ (ex_intro _ _ (ex_intro _ _ generalize_decimal_refuted))). Qed.
+Print Assumptions C09_generalize_decimal_refuted.
+
+(* relational layer: every row the evaluator produces conforms to the inferred schema under the correct rules, for all
+   statements over projection, filter, inner/left/right join, UNION, GROUP BY + COUNT/SUM/MIN/MAX/AVG, DISTINCT, LIMIT and
+   all table contents *)
+Theorem C09_rel_conforms : forall q rows, wf_rel q = true -> eval_rel q = Some rows ->
+  Forall (fun r => conforms (schema_of true q) r = true) rows.
+Proof. exact rel_conforms. Qed.
+Print Assumptions C09_rel_conforms.
+(* the rules of the code differ from them in nullability only ... *)
+Theorem C09_rules_same_types : forall q, map c_ty (schema_of false q) = map c_ty (schema_of true q).
+Proof. exact rules_same_types. Qed.
+Print Assumptions C09_rules_same_types.
+(* ... and are refuted: outer-join padded side, aggregates without a value, derived column of such an aggregate *)
+Theorem C09_left_join_code_rule_refuted : exists q, rel_violates q.
+Proof. exact (ex_intro _ _ left_join_code_rule_refuted). Qed.
+Print Assumptions C09_left_join_code_rule_refuted.
+Theorem C09_right_join_code_rule_refuted : exists q, rel_violates q.
+Proof. exact (ex_intro _ _ right_join_code_rule_refuted). Qed.
+Print Assumptions C09_right_join_code_rule_refuted.
+Theorem C09_aggregate_code_rule_refuted : exists q, rel_violates q.
+Proof. exact (ex_intro _ _ aggregate_code_rule_refuted). Qed.
+Print Assumptions C09_aggregate_code_rule_refuted.
+Theorem C09_aggregate_all_null_group_refuted : exists q, rel_violates q.
+Proof. exact (ex_intro _ _ aggregate_all_null_group_refuted). Qed.
+Print Assumptions C09_aggregate_all_null_group_refuted.
+Theorem C09_derived_aggregate_code_rule_refuted : exists q, rel_violates q.
+Proof. exact (ex_intro _ _ derived_aggregate_code_rule_refuted). Qed.
+Print Assumptions C09_derived_aggregate_code_rule_refuted.
 
 Example C09_nonvacuous :
-  let s := [Col TInt false; Col TInt true; Col TStr false] in
-  let r := [VInt 7; VNull; VStr [97%Z]] in
-  conforms s r = true /\
-  well_typed s (ECoalesce (EField 1) (EAdd (EField 0) (ELit (VInt 1)))) = true /\
-  nullable s (ECoalesce (EField 1) (EAdd (EField 0) (ELit (VInt 1)))) = false /\
-  eval r (ECoalesce (EField 1) (EAdd (EField 0) (ELit (VInt 1)))) = Ok (VInt 8) /\
-  nullable s (EIntDiv (EField 0) (ELit (VInt 0))) = true /\ eval r (EIntDiv (EField 0) (ELit (VInt 0))) = Ok VNull /\
-  nullable s (EIsNull (EField 1)) = false /\ eval r (EIsNull (EField 1)) = Ok (VInt 1).
+  let s := [Col (TInt I64) false; Col (TInt I64) true; Col TStr false] in
+  let r := [VInt 7; VNull; VStr [97]] in
+  let e := ECase [(ECmp Gt (EField 0) (ELit (VInt 1)), ECoalesce (EField 1) (EArith Add (EField 0) (ELit (VInt 1))))] (Some (ELit (VInt 300))) in
+  conforms s r = true /\ well_typed s e = true /\ nullable s e = false /\ type_of s e = TInt I64 /\ eval s r e = Ok (VInt 8) /\
+  well_typed s (EMod (EField 0) (ELit (VInt 4))) = true /\ eval s r (EMod (EField 0) (ELit (VInt 4))) = Ok (VInt 3) /\
+  wf_rel (RGroup [] [(ACount, 0%nat); (ASum, 1%nat)] (RTable s [r])) = true /\
+  eval_rel (RGroup [] [(ACount, 0%nat); (ASum, 1%nat)] (RTable s [r])) = Some [[VInt 1; VNull]].
 Proof. vm_compute. repeat split; reflexivity. Qed.
 Print Assumptions C09_nonvacuous.
